@@ -398,6 +398,8 @@ def run(ctx):
     ctx.require(len(ct) >= 1, 'C18.R7: session_file_storage constructor not found')
     cf = ct[0]
     mm = [i for i in cf.calls() if (cf.callee(i) or '') in ('mmap', 'mmap64')]
+    if len(mm) > 1:     # a probe helper may map memory of its own: the table is the mapping stored in memory_ / locks_
+        mm = [i for i in mm if any(cf.contains(w_, i) for w_ in q.field_writes(cf, 'session_file_storage::memory_') + q.field_writes(cf, 'session_file_storage::locks_'))]
     ok7 = len(mm) == 1
     why7 = 'no single mmap of the mutex table'
     if ok7:
